@@ -100,6 +100,28 @@ def _ecmul(curve, ka, kb):
     return mk(ka), mk(kb)
 
 
+SHARED = {}
+
+
+def _shared_operand(curve):
+    """two threads work on their own points but use ONE shared point object Q as a read-only operand
+    (addition, comparison, negation/copy, coordinate export)"""
+    def mk(k):
+        def body():
+            from Crypto.PublicKey._point import _curves
+            Q = SHARED[curve]
+            G = _curves[curve].G
+            P = G * k
+            if curve in ("curve25519", "curve448"):
+                return "%x,%s,%x" % (int(P.x), P == Q, int(Q.x))
+            R = P + Q
+            N = -Q
+            x, y = Q.xy
+            return "%x,%x,%s,%x,%x" % (int(R.x), int(R.y), P == Q, int(N.y), int(x) ^ int(y))
+        return body
+    return mk(0x1234567), mk(2 ** 150 + 12345)
+
+
 def _sign(curve):
     def mk(d, msg):
         def body():
@@ -234,6 +256,8 @@ def workloads():
     W["aead/ChaCha20-Poly1305"] = chapoly()
     for c in ("p192", "p224", "p256", "p384", "p521", "ed25519", "ed448", "curve25519", "curve448"):
         W["ec/mul-" + c] = _ecmul(c, 0x1234567, 2 ** 150 + 12345)
+    for c in ("p256", "p521", "ed25519", "ed448", "curve25519", "curve448"):
+        W["ec/shared-operand-" + c] = _shared_operand(c)
     W["ec/sign-p256"] = _sign("p256")
     W["ec/sign-ed25519"] = _sign("ed25519")
     W["ec/sign-ed448"] = _sign("ed448")
@@ -248,6 +272,7 @@ def warm():
     from Crypto.PublicKey._point import _curves
     for c in ("p192", "p224", "p256", "p384", "p521", "ed25519", "ed448", "curve25519", "curve448"):
         _ = _curves[c].G
+        SHARED[c] = _curves[c].G * 1000
 
 
 # ---------------------------------------------------------------------------
